@@ -165,4 +165,67 @@ def run(chk, facts_dir, tier):
                 else:
                     chk.ok("R25.5", "%s L%s: compared on raw values" % (root.rsplit("::", 1)[-1], c["line"]), b.where(c["line"]))
     chk.floor("R25.5", n5, 4)
+    chk.rule("R25.6", "EXACT MEANS EQUAL: validate_partition_sequence accepts Exact(sequence) only on the equal edge of `next_partition_sequence - 1 == sequence` (offsets checked), "
+                      "never on an ordering test")
+    exact_sequence_gate(chk, sprog, "R25.6")
     return {}
+
+
+def exact_sequence_gate(chk, prog, rule):
+    """In validate_partition_sequence the Exact(sequence) arm returns Ok only on the equal edge of `next_partition_sequence - 1 == sequence`
+    (or `next == sequence + 1`): an ordering test (`>`, `>=`) accepts an expectation the partition has already moved past (C25 R25.6, C10 R10.6, C02)."""
+    from ..gate import comparisons as _cmps, switch_on, edge_dominates, linear
+    from ..util import discr_switches, ok_return_blocks
+    fn = "sierradb::writer_thread_pool::validate_partition_sequence"
+    b = prog.bodies.get(fn)
+    if b is None:
+        raise Inconclusive("validate_partition_sequence not found")
+    chk.analysed(fn)
+    ev = Ev(prog, b)
+    # the Exact arm: the edge of the match on `expected` taken for the variant that carries a payload read as ((expected as Exact).0)
+    arm = None
+    for sb, place, targets, otherwise in discr_switches(b):
+        if "ExpectedVersion" in b.local_ty(place["l"]):
+            for v, tgt in targets.items():
+                reg = b.reach_from([tgt], avoid=frozenset([sb])) | {tgt}
+                for i, j, s_ in b.assigns():
+                    if i in reg and s_["rv"]["k"] == "use":
+                        pl = op_place(s_["rv"]["op"])
+                        if pl and any(isinstance(e, dict) and e.get("dc") == "Exact" for e in pl["p"]):
+                            arm = (sb, tgt)
+    if arm is None:
+        raise Inconclusive("validate_partition_sequence: Exact arm not found")
+
+    def is_next(t):
+        return strip(t)[0] == "param" and strip(t)[2] == "next_partition_sequence"
+
+    def is_seq(t):
+        return any(isinstance(x, tuple) and x and x[0] == "variant" and x[2] == "Exact" for x in walk(t)) or \
+            any(isinstance(x, tuple) and x and x[0] == "field" and "Exact" in str(x) for x in [strip(t)])
+
+    gates = []
+    for c in _cmps(prog, b, ev):
+        if c["op"] not in ("Eq", "Ne"):
+            continue
+        (ba, oa), (bb, ob) = linear(c["a"]), linear(c["b"])
+        if is_next(ba) and is_seq(bb):
+            diff = oa - ob
+        elif is_next(bb) and is_seq(ba):
+            diff = ob - oa
+        else:
+            continue
+        sw = switch_on(b, c["sw_block"], c["lhs"]["l"])
+        if sw and diff == -1:
+            gates.append((c["sw_block"], sw[0] if c["op"] == "Eq" else sw[1], c["line"]))
+    n = 0
+    for ob_, s_ in ok_return_blocks(b):
+        if not edge_dominates(b, arm[0], arm[1], ob_):
+            continue
+        n += 1
+        if any(edge_dominates(b, gb, ge, ob_) for gb, ge, _ in gates):
+            chk.ok(rule, "Exact(sequence) accepted only under next_partition_sequence - 1 == sequence", b.where(s_["line"]))
+        else:
+            chk.fail(rule, fn, "exact-not-equality", "an append expecting Exact(sequence) is accepted without the equality `next_partition_sequence - 1 == sequence`: a stale expectation "
+                     "(the partition has already moved past that sequence) is accepted and appended at the end, so a second, different transaction is acknowledged for the same expected position",
+                     b, s_["line"])
+    chk.floor(rule, n, 1)
